@@ -101,6 +101,39 @@ pub fn run_index(prop: &str, seed: u64, thorough: bool, ctx: &Ctx, sink: &mut dy
             let res = run_case(&c, ctx);
             sink(&c, res);
         }
+        "C16" => {
+            // crash-point enumeration: count the callback invocations of the operation, then
+            // re-execute from scratch with the injected panic at invocation k, for every k
+            let base = crate::w3::gen_w3(seed);
+            let c0 = Case::W3(base.clone());
+            let res0 = run_case(&c0, ctx);
+            let n = res0.requests as u64;
+            let clean = res0.violations.is_empty();
+            sink(&c0, res0);
+            if !clean || n == 0 {
+                return;
+            }
+            let ks: Vec<u64> = if thorough || n <= 16 {
+                (1..=n).collect()
+            } else {
+                let mut v: Vec<u64> = vec![1, 2, n - 1, n];
+                let mut rr = Rng::new(seed).sub(78);
+                while v.len() < 16 {
+                    let k = 1 + rr.below(n);
+                    if !v.contains(&k) {
+                        v.push(k);
+                    }
+                }
+                v
+            };
+            for k in ks {
+                let mut s = base.clone();
+                s.panic_at = k;
+                let c = Case::W3(s);
+                let res = run_case(&c, ctx);
+                sink(&c, res);
+            }
+        }
         _ => panic!("unknown property {}", prop),
     }
 }
@@ -169,6 +202,7 @@ pub fn nontrivial(prop: &str, st: &Stats) -> bool {
         "C11" => g("initialiser_failed") + g("slice_initialiser_failed") >= 1,
         "C12" => g("grow_in_place") + g("grow_relocated_same_chunk") + g("grow_into_new_chunk") + g("shrink_kept_address") + g("shrink_in_place_moved_up") + g("deallocate_reclaimed") >= 1,
         "C13" | "C14" | "C15" | "C17" => g("w2_mirrored_call") >= 2,
+        "C16" => g("w3_injected_panic_fired") >= 1,
         _ => true,
     }
 }
